@@ -130,7 +130,7 @@ fn apply_model(m: &mut Settings, headers: &mut BTreeMap<String, Vec<Vec<u8>>>, s
         Setter::Proxy(x) => m.proxy = *x,
         Setter::Charset(x) => m.charset = *x,
         Setter::Compression(x) => {
-            if cfg!(feature = "compress") {
+            if cfg!(feature = "decodes") {
                 m.compression = *x
             }
         }
@@ -155,9 +155,9 @@ fn apply_session(s: &mut Session, op: &Setter) {
         Setter::Timeout(x) => s.timeout(Duration::from_millis(*x)),
         Setter::Proxy(x) => s.proxy_settings(proxy_settings(*x)),
         Setter::Charset(x) => s.default_charset(charset(*x)),
-        #[cfg(feature = "compress")]
+        #[cfg(feature = "decodes")]
         Setter::Compression(x) => s.allow_compression(*x),
-        #[cfg(not(feature = "compress"))]
+        #[cfg(not(feature = "decodes"))]
         Setter::Compression(_) => {}
         Setter::InvCerts(x) => s.danger_accept_invalid_certs(*x),
         Setter::InvHosts(x) => s.danger_accept_invalid_hostnames(*x),
@@ -176,9 +176,9 @@ fn apply_builder(b: RequestBuilder, op: &Setter) -> RequestBuilder {
         Setter::Timeout(x) => b.timeout(Duration::from_millis(*x)),
         Setter::Proxy(x) => b.proxy_settings(proxy_settings(*x)),
         Setter::Charset(x) => b.default_charset(charset(*x)),
-        #[cfg(feature = "compress")]
+        #[cfg(feature = "decodes")]
         Setter::Compression(x) => b.allow_compression(*x),
-        #[cfg(not(feature = "compress"))]
+        #[cfg(not(feature = "decodes"))]
         Setter::Compression(_) => b,
         Setter::InvCerts(x) => b.danger_accept_invalid_certs(*x),
         Setter::InvHosts(x) => b.danger_accept_invalid_hostnames(*x),
@@ -319,7 +319,7 @@ fn send_with_probe(rb: RequestBuilder, ro_m: &Settings, headers: &BTreeMap<Strin
             }
             let d = world.dial(0);
             check_dial(&d.req, out);
-            let mut m = Model { method: method.to_owned(), path: "/c16".into(), allow_compression: ro_m.compression && cfg!(feature = "compress"), body_kind: "none", ..Default::default() };
+            let mut m = Model { method: method.to_owned(), path: "/c16".into(), allow_compression: ro_m.compression && cfg!(feature = "decodes"), body_kind: "none", ..Default::default() };
             m.headers = headers.clone();
             if ro_m.proxy != 0 {
                 m.absolute_prefix = Some("http://origin.test".into());
